@@ -36,12 +36,25 @@ def is_uniform(sp):
     return bool(np.all(np.abs(d - d[0]) <= 8 * common.EPS * max(abs(sp.breaks[0]), abs(sp.breaks[-1]), 1.0)))
 
 
-def classify(sp):
-    """signature of a quadrature failure on this space"""
+def classify(sp, Ir=None, Ie=None, full=None):
+    """signature of a quadrature failure on this space: the two recorded findings are recognised by the *specific* wrong
+    values they produce on the real `integrals` array (pure numpy, no model); anything else gets the generic signature"""
+    if Ir is None or len(Ir) != sp.ncoef:
+        return None
+    n, d = sp.nb, sp.p
+
+    def near(a, b, sc):
+        return abs(F(float(a)) - F(b)) <= F(64) * EPS * 2 * sc
     if sp.per and not sp.cu and not is_uniform(sp):
-        return 'C09:periodic-nonuniform-integrals'
+        # F5a: first n entries right, tail mirrored from integrals[d-i-1]
+        if all(near(Ir[k], Ie[k], full[k]) for k in range(n)) and \
+                all(near(Ir[n + i], F(float(Ir[d - i - 1])), full[n + i]) for i in range(d)):
+            return 'C09:periodic-nonuniform-integrals'
     if sp.cu and not sp.per and sp.nc <= 2:
-        return 'C09:cubic-uniform-few-cells'
+        dx = sp.T[4] - sp.T[3]
+        pat = {1: [F(1, 24), F(23, 24), F(23, 24), F(1, 24)], 2: [F(1, 24), F(1, 2), F(23, 24), F(1, 2), F(1, 24)]}[sp.nc]
+        if all(near(Ir[k], pat[k] * dx, dx) for k in range(sp.ncoef)):
+            return 'C09:cubic-uniform-few-cells'
     return None
 
 
@@ -50,7 +63,7 @@ def check_space(chk, drv, sp, stats, ndata):
     from pygyro.splines.spline_interpolators import SplineInterpolator1D
     rng = chk.rng
     case = sp.desc()
-    known = classify(sp)
+    known = None
     try:
         itp = SplineInterpolator1D(sp.basis)
         w = np.array(itp.get_quadrature_coefficients(), dtype=float)
@@ -62,6 +75,9 @@ def check_space(chk, drv, sp, stats, ndata):
         return
     Ir = np.array(sp.basis.integrals, dtype=float)
     xs = np.asarray(sp.basis.greville, dtype=float)
+    if not H.all_finite(w, Ir, xs):
+        chk.fail('C09:non-finite', 'quadrature weights / integrals / points are not finite', case, actual=[float(x) for x in w])
+        return
     n, p = sp.nb, sp.p
     L = sp.b - sp.a
     c08_affected = sp.per and sp.nc == sp.p       # collocation matrix of the unpatched code is wrong there (C08 finding)
@@ -76,6 +92,7 @@ def check_space(chk, drv, sp, stats, ndata):
     # ------------------------------------------------------------------ oracle (Fractions, no model)
     Ie = H.exact_basis_integrals(sp)                 # unwrapped, length ncells+p
     full = [(sp.T[j + p + 1] - sp.T[j]) / (p + 1) for j in range(sp.ncoef)]
+    known = classify(sp, Ir, Ie, full)
     if len(Ir) != sp.ncoef:
         fail('C09:integrals', 'BSplines.integrals has the wrong length', sp.ncoef, len(Ir))
     else:
@@ -108,9 +125,11 @@ def check_space(chk, drv, sp, stats, ndata):
     # equal weights on uniform periodic spaces
     if sp.per and is_uniform(sp) and not c08_affected:
         Mn = np.array([[float(v) for v in r] for r in Mo])
-        kappa = float(np.abs(np.linalg.inv(Mn.T)).sum(axis=1).max())
+        kappa = H.inv_norm(Mn.T)
         tgt = L / n
-        for i in range(n):
+        if kappa is None:
+            fail('C09:equal-weights', 'interpolation points of a uniform periodic space are not unisolvent')
+        for i in range(n if kappa is not None else 0):
             d = abs(wf[i] - tgt)
             stats['equal'] = max(stats.get('equal', 0.0), float(d / (EPS * F(kappa) * tgt)))
             if d > F(CN) * EPS * F(kappa) * tgt:
@@ -125,6 +144,9 @@ def check_space(chk, drv, sp, stats, ndata):
         spl = Spline1D(sp.basis)
         itp.compute_interpolant(u, spl)
         c = np.array(spl.coeffs, dtype=float)
+        if not H.all_finite(c):
+            fail('C09:non-finite', 'interpolation coefficients are not finite')
+            continue
         cf = H.frs(c)
         exact, esc = H.exact_spline_integral(sp, cf)
         wu = float(np.dot(w, u))
@@ -140,6 +162,8 @@ def check_space(chk, drv, sp, stats, ndata):
         datas.append((dk, u, c, wu))
         chk.count('data ' + dk)
     # ------------------------------------------------------------------ correspondence
+    if not datas:
+        return
     dk, u, c, wu = datas[0]
     mo = drv.call({'op': 'quad', 'space': sp.req, 'xgrid': common.rats(xs), 'w': common.rats(w), 'u': common.rats(u),
                    'sol': common.rats(c[:n])})
